@@ -1,4 +1,5 @@
 import Mdns.Props.C03
+import Mdns.Lemmas.ClientSchedule
 /-
   C04  Everything advertised for a browsed type is found and resolved.
 
@@ -142,6 +143,46 @@ theorem followup_step (s : State) (now : Nat) (inst : BList) (k : Nat) :
   · intro h
     unfold execResolveInst
     simp only [h]
+
+/-! ### the follow-ups go out when an iteration runs at their due time -/
+
+/-- **followup_contract, part 3: a due follow-up is run.**  `Resolve(inst, k)` is queued for
+    `n ≤ now` (with its timer - `followup_queued`; the daemon asks to be woken no later than `n`:
+    `Props.C12.wake_never_late_run`).  The iteration at `now` - whatever it reads, whatever
+    commands it processes - runs it on the cache as it is when the re-run phase starts: if
+    something is still missing there, exactly that query goes out in this iteration and, while
+    `k < 3`, try `k + 1` is queued for `now + 500`. -/
+theorem followup_runs_when_due (s : State) (now : Nat) (pkts : List Packet) (cmds : List Command) (inst : BList) (k n : Nat)
+    (hr : (⟨n, .resolve inst k⟩ : Rerun) ∈ s.reruns) (hdue : n ≤ now) (qs : List (BList × Nat))
+    (hqs : queryUnresolved (runCommands (preCommands s now pkts) now cmds).1.cache inst = some qs) :
+    sendQuery (runCommands (preCommands s now pkts) now cmds).1.cache now qs ∈ (iter s now pkts cmds).2 ∧
+    (k < 3 → (⟨now + 500, .resolve inst (k + 1)⟩ : Rerun) ∈ (iter s now pkts cmds).1.reruns) :=
+  followup_due_iter s now pkts cmds inst k n hr hdue qs hqs
+
+/-- an `ANY` question for the instance among the outputs -/
+def asksAny (inst : BList) (outs : List Out) : Prop := ∃ known, Out.query [(inst, 255)] known ∈ outs
+
+/-- **The three follow-ups at +500, +1000, +1500 ms.**  Only the PTR of `inst` has arrived (no SRV
+    entry for it) and `Resolve(inst, 1)` is queued for `n` (= arrival + 500 ms, `followup_queued`).
+    If nothing else arrives and iterations run at `n`, `n + 500` and `n + 1000` (the wake-ups the
+    daemon asks for), each of them sends the question `ANY inst`. -/
+theorem followups_at_500_1000_1500 (s : State) (inst : BList) (n : Nat) (hv : validInstanceName inst = true)
+    (hsrv : s.cache.srv.get inst = none) (hr : (⟨n, .resolve inst 1⟩ : Rerun) ∈ s.reruns) :
+    asksAny inst (iter s n [] []).2 ∧
+    asksAny inst (iter (iter s n [] []).1 (n + 500) [] []).2 ∧
+    asksAny inst (iter (iter (iter s n [] []).1 (n + 500) [] []).1 (n + 1000) [] []).2 := by
+  have step : ∀ (x : State) (now k m : Nat), x.cache.srv.get inst = none → (⟨m, .resolve inst k⟩ : Rerun) ∈ x.reruns →
+      m ≤ now → asksAny inst (iter x now [] []).2 ∧ (iter x now [] []).1.cache.srv.get inst = none ∧
+        (k < 3 → (⟨now + 500, .resolve inst (k + 1)⟩ : Rerun) ∈ (iter x now [] []).1.reruns) := by
+    intro x now k m hx hm hle
+    obtain ⟨hq1, hq2⟩ := srv_none_quiet x now inst hx
+    have hqs := asks_any (runCommands (preCommands x now []) now []).1.cache inst hv hq2
+    obtain ⟨h1, h2⟩ := followup_due_iter x now [] [] inst k m hm hle _ hqs
+    exact ⟨⟨_, h1⟩, hq1, h2⟩
+  obtain ⟨a1, c1, r1⟩ := step s n 1 n hsrv hr (Nat.le_refl _)
+  obtain ⟨a2, c2, r2⟩ := step _ (n + 500) 2 (n + 500) c1 (r1 (by omega)) (Nat.le_refl _)
+  obtain ⟨a3, _, _⟩ := step _ (n + 1000) 3 (n + 500 + 500) c2 (r2 (by omega)) (by omega)
+  exact ⟨a1, a2, a3⟩
 
 /-! ### the resolution step -/
 
